@@ -1,11 +1,608 @@
-// Package c20 is the correspondence/oracle harness for property C20.
+// Package c20: files are admitted by content; mismatches and DRM are refused.
+//
+// Correspondence ops (wire format, see Handlers/C20.lean):
+//
+//	c20.ext    <name>                       -> format.Detect(name)
+//	c20.magic  <bytes>                      -> format.DetectFromMagic(bytes)
+//	c20.zipfmt <members>                    -> format.DetectFromReader(zip(members))
+//	c20.detect <first512> <zip>             -> format.DetectFromReader(file)            | err
+//	c20.admission <name> <first512> <zip> <T>  -> v=<ok|err> open=<ok|err>
+//	c20.obf    <algorithm>                  -> epubdoc.isFontObfuscation
+//	c20.content <uri>                       -> epubdoc.isContentFile
+//	c20.drm    <drm-members>                -> drm | ok   (errors.Is(err, ErrDRMProtected))
+//
+// <name>,<bytes>,<algorithm>,<uri> are hex ("-" = empty). <members> is a
+// comma-separated list in archive order of `namehex` or `namehex:contenthex`
+// (content is given for members named "mimetype").  <zip> is `-` (the file is
+// not a ZIP), `err` (archive/zip rejects it) or <members>.  <T> is the format
+// the document was written as (or `none`).  <drm-members> is the comma-separated
+// sequence, in archive order, of `R` (META-INF/rights.xml), `B`
+// (META-INF/encryption.xml that encoding/xml rejects) and `E<entries>` (parsable
+// encryption.xml; entries `algohex:urihex` joined by `;`), or `-` if none.
 package c20
 
-import "verifharness/hx"
+import (
+	"bytes"
+	"errors"
+	"fmt"
+	"os"
+	"path/filepath"
+	"strings"
+
+	"github.com/tsawler/tabula"
+	"github.com/tsawler/tabula/epubdoc"
+	"github.com/tsawler/tabula/format"
+
+	"verifharness/hx"
+	"verifharness/writers"
+)
 
 func init() { hx.Register("C20", Run, Replay) }
 
-// Run is not built yet for this property.
-func Run(c *hx.Ctx) { c.Note("C20: harness not built") }
+// ---- the extension table, written from the property text -----------------------
 
-func Replay(c *hx.Ctx, kase map[string]interface{}) {}
+var extOf = map[string][]string{
+	FPDF: {".pdf"}, FDOCX: {".docx"}, FODT: {".odt"}, FXLSX: {".xlsx"}, FPPTX: {".pptx"},
+	FHTML: {".html", ".htm"}, FEPUB: {".epub"},
+}
+
+var allExts = []string{".pdf", ".docx", ".odt", ".xlsx", ".pptx", ".html", ".htm", ".epub"}
+
+func asciiLower(s string) string {
+	b := []byte(s)
+	for i, c := range b {
+		if c >= 'A' && c <= 'Z' {
+			b[i] = c + 32
+		}
+	}
+	return string(b)
+}
+
+// wantExtFormat: the format a file NAME asks for (text after the last dot of
+// the last path element, ASCII case-insensitive).
+func wantExtFormat(name string) string {
+	base := name
+	if i := strings.LastIndexByte(base, '/'); i >= 0 {
+		base = base[i+1:]
+	}
+	i := strings.LastIndexByte(base, '.')
+	if i < 0 {
+		return FUnknown
+	}
+	e := asciiLower(base[i:])
+	for f, xs := range extOf {
+		for _, x := range xs {
+			if x == e {
+				return f
+			}
+		}
+	}
+	return FUnknown
+}
+
+func mixCase(r *hx.Rng, s string) string {
+	b := []byte(s)
+	for i, c := range b {
+		if c >= 'a' && c <= 'z' && r.Bool() {
+			b[i] = c - 32
+		} else if c >= 'A' && c <= 'Z' && r.Bool() {
+			b[i] = c + 32
+		}
+	}
+	return string(b)
+}
+
+// ---- c20.ext ---------------------------------------------------------------------
+
+func extOps(c *hx.Ctx) {
+	emit := func(name string) string {
+		got := format.Detect(name).String()
+		c.Op("c20.ext "+hx.HexS(name), got)
+		return got
+	}
+	stems := []string{"doc", "my.file", "dir.v2/doc", "/abs/path/report", "a.b/c", ".hidden", "", "x.pdf", "y.DOCX", "dir.html/z", "sp ace", "ünï", "a/b.c/d.e"}
+	tails := []string{"", ".", ".txt", ".zip", ".doc", ".xls", ".xml", ".pdf.", ".pdf/", ".pdf/x", ".pdfx", ".xpdf", ".htmlx", ".ht", ".epub3", ".docx ", ". docx", ".d.ocx"}
+	for _, st := range stems {
+		for f, xs := range extOf {
+			for _, x := range xs {
+				for _, v := range []string{x, strings.ToUpper(x), mixCase(c.Rng, x), mixCase(c.Rng, x)} {
+					name := st + v
+					got := emit(name)
+					c.Check("C20/ext-table-case-insensitive", got == f, map[string]interface{}{"kind": "ext", "name": name}, func() string {
+						return fmt.Sprintf("format.Detect(%q)=%s want %s", name, got, f)
+					})
+					c.Case("ext:"+name, true)
+				}
+			}
+		}
+		for _, t := range tails {
+			name := st + t
+			got := emit(name)
+			want := wantExtFormat(name)
+			c.Check("C20/ext-table-exact", got == want, map[string]interface{}{"kind": "ext", "name": name}, func() string {
+				return fmt.Sprintf("format.Detect(%q)=%s want %s", name, got, want)
+			})
+			c.Case("ext:"+name, got != FUnknown)
+		}
+	}
+	pieces := []string{".", "/", "a", "B", "pdf", "PDF", "docx", "Odt", "xlsx", "pptx", "html", "htm", "HTM", "epub", "ePub", " ", "x", ".."}
+	for i := 0; i < c.N(1500, 30000); i++ {
+		var sb strings.Builder
+		for j := c.Rng.Range(0, 6); j > 0; j-- {
+			sb.WriteString(hx.Pick(c.Rng, pieces))
+		}
+		name := sb.String()
+		got := emit(name)
+		want := wantExtFormat(name)
+		c.Check("C20/ext-table-exact", got == want, map[string]interface{}{"kind": "ext", "name": name}, func() string {
+			return fmt.Sprintf("format.Detect(%q)=%s want %s", name, got, want)
+		})
+		c.Count("ext-random:" + got)
+		c.Case("ext:"+name, got != FUnknown)
+	}
+}
+
+// ---- c20.magic -------------------------------------------------------------------
+
+func magicOps(c *hx.Ctx) {
+	emit := func(b []byte) {
+		got := format.DetectFromMagic(b).String()
+		c.Op("c20.magic "+hx.Hex(b), got)
+		c.Count("magic:" + got)
+		c.Case("magic:"+string(b), got != FUnknown)
+	}
+	fixed := []string{"", "%", "%PD", "%PDF", "%PDF-1.7\n", " %PDF-1.4", "PK\x03\x04", "PK\x03\x04\x14\x00", "PK\x05\x06", "PK\x03",
+		"<!DOCTYPE html>", "<!doctype html>", "<!DOCTYPE HTML PUBLIC \"x\">", "<!DOCTYPE htm", "<!DOCTYPE  html>", "<!DOCTYPE svg>", "<!DOCTYPEHTML",
+		"<html>", "<HTML lang=en>", "<htm", "<htmlx>", "  \t\r\n<html>", "\x0b<html>", "\x0c<html>", "\xef\xbb\xbf<html>", "x<html>",
+		"<?xml version=\"1.0\"?><html>", "<?xml version=\"1.0\"?>\n<!DOCTYPE html>\n<html>", "<?xml version=\"1.0\"?><svg>", "<?XML?><HTML", "<?xml", "<?xm<html",
+		"    ", " \n\t\r", " \n\t", "<!--c--><html>", "<body>", "<p>x</p>", "hello world", "\x00\x00\x00\x00", "<!DOCTYPE html", "<!DOCTYPE HTM"}
+	for _, s := range fixed {
+		emit([]byte(s))
+	}
+	// the 500-byte window of the XML-declaration branch (ASCII only: the code
+	// upper-cases as UTF-8 text before cutting the window)
+	for _, n := range []int{480, 488, 489, 490, 491, 492, 493, 494, 495, 496, 500, 507, 600} {
+		head := "<?xml version=\"1.0\"?>"
+		pad := n - len(head)
+		emit([]byte(head + strings.Repeat(" ", pad) + "<html>"))
+		emit([]byte(head + strings.Repeat("x", pad) + "<HtMl"))
+		emit([]byte("\n \n" + head + strings.Repeat("-", pad) + "<html>"))
+	}
+	starts := []string{"%PDF", "PK\x03\x04", "<!DOCTYPE html", "<!doctype HTML", "<html", "<HTML", "<?xml", "<?XML ", " ", "\n", "\t\r", "<", "<!", "<h", "%P", "x"}
+	for i := 0; i < c.N(800, 20000); i++ {
+		var b []byte
+		for j := c.Rng.Range(0, 4); j > 0; j-- {
+			b = append(b, hx.Pick(c.Rng, starts)...)
+		}
+		if bytes.Contains(asciiUpperB(b), []byte("<?XML")) {
+			// keep the XML-window cases ASCII
+			for j := c.Rng.Range(0, 12); j > 0; j-- {
+				b = append(b, byte(c.Rng.Range(32, 126)))
+			}
+		} else {
+			b = append(b, c.Rng.Bytes(c.Rng.Range(0, 8))...)
+		}
+		emit(b)
+	}
+}
+
+func asciiUpperB(b []byte) []byte {
+	o := append([]byte(nil), b...)
+	for i, c := range o {
+		if c >= 'a' && c <= 'z' {
+			o[i] = c - 32
+		}
+	}
+	return o
+}
+
+// ---- ZIP member lists --------------------------------------------------------------
+
+func membersField(ms []writers.Member) string {
+	if len(ms) == 0 {
+		return "-"
+	}
+	xs := make([]string, len(ms))
+	for i, m := range ms {
+		xs[i] = hx.HexS(m.Name)
+		if m.Name == "mimetype" {
+			xs[i] += ":" + hx.Hex(m.Data)
+		}
+	}
+	return strings.Join(xs, ",")
+}
+
+func first512(b []byte) []byte {
+	if len(b) > 512 {
+		return b[:512]
+	}
+	return b
+}
+
+func detectBytes(b []byte) string {
+	f, err := format.DetectFromReader(bytes.NewReader(b), int64(len(b)))
+	if err != nil {
+		return "err"
+	}
+	return f.String()
+}
+
+// zipfmtOps: arbitrary member lists (several markers, duplicates, prefix-only
+// archives, odd mimetype contents) straight through detectZIPFormat.
+func zipfmtOps(c *hx.Ctx) {
+	mimes := []string{odtMime, epubMime, odtMime + "\n", " " + epubMime + "\r\n", "\t" + odtMime + "-template  ", "application/vnd.oasis.opendocument.spreadsheet",
+		"application/vnd.oasis.opendocument.text-master", epubMime + ";v=3", "x" + epubMime, "", " ", "text/plain", "APPLICATION/EPUB+ZIP", "xx" + odtMime + "yy"}
+	names := []string{"mimetype", "mimetype", "META-INF/container.xml", "word/document.xml", "xl/workbook.xml", "ppt/presentation.xml",
+		"[Content_Types].xml", "_rels/.rels", "word/", "word/x.xml", "xl/y.xml", "ppt/z.xml", "wordy/a", "xlx", "ppt", "xl", "word",
+		"content.xml", "META-INF/manifest.xml", "OEBPS/content.opf", "Mimetype", "META-INF/Container.xml", "word/Document.xml", "a/word/document.xml",
+		"xl/workbook.xml.rels", "ppt/presentation.xmlx", "docProps/core.xml"}
+	emit := func(ms []writers.Member) {
+		got := detectBytes(writers.Zip(ms))
+		c.Op("c20.zipfmt "+membersField(ms), got)
+		c.Count("zipfmt:" + got)
+		c.Case("zipfmt:"+membersField(ms), got != FUnknown && got != "err")
+	}
+	// every single member, every ordered pair of distinct names
+	uniq := names[1:]
+	for _, a := range uniq {
+		if a == "mimetype" {
+			for _, mt := range mimes {
+				emit([]writers.Member{{Name: a, Data: []byte(mt)}})
+			}
+			continue
+		}
+		emit([]writers.Member{{Name: a, Data: []byte("x")}})
+	}
+	for _, a := range uniq[:16] {
+		for _, b := range uniq[:16] {
+			if a == b {
+				continue
+			}
+			ms := []writers.Member{{Name: a, Data: []byte("x")}, {Name: b, Data: []byte("x")}}
+			for i := range ms {
+				if ms[i].Name == "mimetype" {
+					ms[i].Data = []byte(hx.Pick(c.Rng, mimes))
+				}
+			}
+			emit(ms)
+		}
+	}
+	for i := 0; i < c.N(600, 12000); i++ {
+		n := c.Rng.Range(1, 7)
+		ms := make([]writers.Member, n)
+		for j := range ms {
+			ms[j] = writers.Member{Name: hx.Pick(c.Rng, names), Data: []byte("x")}
+			if ms[j].Name == "mimetype" {
+				ms[j].Data = []byte(hx.Pick(c.Rng, mimes))
+				ms[j].Store = c.Rng.Bool()
+			}
+		}
+		emit(ms)
+	}
+}
+
+// ---- documents × names × layouts -----------------------------------------------------
+
+type layout struct {
+	Name    string
+	Members []writers.Member // nil for PDF/HTML
+	Decoys  []string
+}
+
+func isMarkerMember(m writers.Member) bool { return markerNames[m.Name] }
+
+// layouts enumerates archive orders and decoy placements for a ZIP document.
+// The first layout is always the canonical one without decoys.
+func layouts(r *hx.Rng, d *Doc, shuffles int) []layout {
+	if !d.IsZip() {
+		return []layout{{Name: "raw"}}
+	}
+	canon := append([]writers.Member(nil), d.Members...)
+	ls := []layout{{Name: "canon", Members: canon}}
+	rev := make([]writers.Member, len(canon))
+	for i, m := range canon {
+		rev[len(canon)-1-i] = m
+	}
+	ls = append(ls, layout{Name: "reversed", Members: rev})
+	var markers, rest []writers.Member
+	for _, m := range canon {
+		if isMarkerMember(m) {
+			markers = append(markers, m)
+		} else {
+			rest = append(rest, m)
+		}
+	}
+	ls = append(ls, layout{Name: "markers-last", Members: append(append([]writers.Member(nil), rest...), markers...)})
+	for i := 0; i < shuffles; i++ {
+		s := append([]writers.Member(nil), canon...)
+		hx.Shuffle(r, s)
+		ls = append(ls, layout{Name: fmt.Sprintf("shuffle%d", i), Members: s})
+	}
+	// decoys: all in front, all behind, random places in a shuffled archive
+	d1 := pickDecoys(r, canon, r.Range(1, 4))
+	ls = append(ls, layout{Name: "decoys-first", Members: append(append([]writers.Member(nil), d1...), canon...), Decoys: namesOf(d1)})
+	d2 := pickDecoys(r, canon, r.Range(1, 4))
+	ls = append(ls, layout{Name: "decoys-last", Members: append(append([]writers.Member(nil), canon...), d2...), Decoys: namesOf(d2)})
+	for i := 0; i < shuffles; i++ {
+		s := append([]writers.Member(nil), canon...)
+		hx.Shuffle(r, s)
+		s2, names := addDecoys(r, s, r.Range(1, 5))
+		ls = append(ls, layout{Name: fmt.Sprintf("decoys-shuffle%d", i), Members: s2, Decoys: names})
+	}
+	return ls
+}
+
+func (l layout) bytes(d *Doc) []byte {
+	if l.Members == nil {
+		return d.Raw
+	}
+	return writers.Zip(l.Members)
+}
+
+type docCase struct {
+	Kind   string `json:"kind"`
+	Seed   uint64 `json:"seed"`
+	Index  int    `json:"index"`
+	Layout string `json:"layout,omitempty"`
+	Name   string `json:"name,omitempty"`
+	Format string `json:"format,omitempty"`
+	Order  string `json:"member_order,omitempty"`
+}
+
+func memberNames(ms []writers.Member) string {
+	xs := make([]string, len(ms))
+	for i, m := range ms {
+		xs[i] = m.Name
+	}
+	return strings.Join(xs, " | ")
+}
+
+// openText runs tabula.Open(path).Text() under a panic guard.
+func openText(path string) (text string, err error, panicked string) {
+	panicked = hx.Safe(func() {
+		text, _, err = tabula.Open(path).Text()
+	})
+	return
+}
+
+func okErr(err error) string {
+	if err == nil {
+		return "ok"
+	}
+	return "err"
+}
+
+// namesFor: the file names one layout is stored under.
+func namesFor(c *hx.Ctx, r *hx.Rng, d *Doc) []string {
+	stem := "doc"
+	var names []string
+	for _, e := range allExts {
+		names = append(names, stem+e)
+	}
+	var extra []string
+	for _, e := range allExts {
+		extra = append(extra, stem+strings.ToUpper(e), stem+mixCase(r, e))
+	}
+	extra = append(extra, stem, stem+".", stem+".txt", stem+".zip", stem+".doc", stem+".bin")
+	for _, e := range allExts { // a second, misleading extension in the stem
+		extra = append(extra, stem+hx.Pick(r, allExts)+e)
+	}
+	if c.Thorough() {
+		return append(names, extra...)
+	}
+	// quick: own extension in upper and mixed case always, plus a sample
+	for _, e := range extOf[d.Format] {
+		names = append(names, stem+strings.ToUpper(e), stem+mixCase(r, e))
+	}
+	names = append(names, stem)
+	for i := 0; i < 5; i++ {
+		names = append(names, hx.Pick(r, extra))
+	}
+	return names
+}
+
+// RunDoc generates document #idx of the seed's stream and checks every layout
+// under every name.
+func RunDoc(c *hx.Ctx, idx int, verbose bool) {
+	r := hx.NewRng(c.Seed).Fork(uint64(idx)) // independent of how much of c.Rng earlier stages used: replays from (seed, index)
+	token := fmt.Sprintf("tok%dq%04x", idx, r.Intn(1<<16))
+	var d *Doc
+	// ZIP formats have many layouts per document, PDF and HTML one: more of those
+	plan := []string{FPDF, FDOCX, FODT, FXLSX, FPPTX, FHTML, FEPUB, "unsniffable", FPDF, FHTML, FPDF, FHTML}
+	if f := plan[idx%len(plan)]; f == "unsniffable" {
+		d = htmlUnsniffable(r, token)
+	} else {
+		d = genDoc(r, f, token)
+	}
+	dir := filepath.Join(c.OutDir, fmt.Sprintf("doc-%d", idx))
+	os.MkdirAll(dir, 0o755)
+	if !verbose {
+		defer os.RemoveAll(dir)
+	}
+	ls := layouts(r, d, c.N(1, 3))
+	canonDet := ""
+	for li, l := range ls {
+		data := l.bytes(d)
+		kase := docCase{Kind: "doc", Seed: c.Seed, Index: idx, Layout: l.Name, Format: d.Format, Order: memberNames(l.Members)}
+		zipField := "-"
+		if l.Members != nil {
+			zipField = membersField(l.Members)
+		}
+		det := detectBytes(data)
+		c.Op("c20.detect "+hx.Hex(first512(data))+" "+zipField, det)
+		c.Count("detect:" + d.Format + "->" + det)
+		if li == 0 {
+			canonDet = det
+			if d.Sniffable {
+				c.Check("C20/detect-own-format", det == d.Format, kase, func() string {
+					return fmt.Sprintf("%s document (%s) detected as %s", d.Format, d.Variant, det)
+				})
+			} else {
+				c.Check("C20/detect-unsniffable-not-misdetected", det == FUnknown || det == d.Format, kase, func() string {
+					return fmt.Sprintf("%s document (%s) detected as %s", d.Format, d.Variant, det)
+				})
+			}
+		} else {
+			c.Check("C20/detect-order-independent", det == canonDet, kase, func() string {
+				return fmt.Sprintf("%s document: canonical member order detected as %s, layout %s (decoys %v) as %s; members: %s",
+					d.Format, canonDet, l.Name, l.Decoys, det, memberNames(l.Members))
+			})
+		}
+		ldir := filepath.Join(dir, fmt.Sprintf("l%d", li))
+		os.MkdirAll(ldir, 0o755)
+		nontrivial := false
+		for _, name := range namesFor(c, r, d) {
+			path := filepath.Join(ldir, name)
+			if err := os.WriteFile(path, data, 0o644); err != nil {
+				panic(err)
+			}
+			k2 := kase
+			k2.Name = name
+			text, err, pan := openText(path)
+			if !c.Check("C20/panic-open", pan == "", k2, func() string { return "panic: " + pan }) {
+				continue
+			}
+			verr := tabula.Open(path).VerifValidateFormat()
+			c.Op(fmt.Sprintf("c20.admission %s %s %s %s", hx.HexS(name), hx.Hex(first512(data)), zipField, d.Format),
+				"v="+okErr(verr)+" open="+okErr(err))
+			want := wantExtFormat(name)
+			switch {
+			case want == d.Format:
+				ok := err == nil && strings.Contains(text, d.Token)
+				nontrivial = nontrivial || ok
+				c.Check("C20/opens-under-own-ext", ok, k2, func() string {
+					return fmt.Sprintf("%s document (%s, layout %s, decoys %v) named %q: err=%v, token %q in text: %v",
+						d.Format, d.Variant, l.Name, l.Decoys, name, err, d.Token, strings.Contains(text, d.Token))
+				})
+				c.Count("own-ext:" + d.Format)
+			case want != FUnknown:
+				c.Check("C20/mismatch-refused", err != nil, k2, func() string {
+					return fmt.Sprintf("%s document (%s, layout %s, decoys %v) named %q (asks for %s) opened without error; text=%q",
+						d.Format, d.Variant, l.Name, l.Decoys, name, want, clip(text, 80))
+				})
+				if d.Sniffable {
+					c.Check("C20/mismatch-cross-check", verr != nil, k2, func() string {
+						return fmt.Sprintf("%s document named %q (asks for %s): the content-vs-extension check passed it", d.Format, name, want)
+					})
+				}
+				c.Count("mismatch:" + d.Format + " as " + want)
+			default:
+				// no / unsupported extension: never mis-parsed
+				c.Check("C20/no-extension-never-misparsed", err != nil || strings.Contains(text, d.Token), k2, func() string {
+					return fmt.Sprintf("%s document named %q produced text %q", d.Format, name, clip(text, 80))
+				})
+				c.Count("no-ext:" + okErr(err))
+			}
+			if !verbose {
+				os.Remove(path)
+			}
+		}
+		c.Case(fmt.Sprintf("doc:%s:%s:%s:%x", d.Format, d.Variant, memberNames(l.Members), len(data)), nontrivial)
+	}
+}
+
+func clip(s string, n int) string {
+	if len(s) > n {
+		return s[:n] + "…"
+	}
+	return s
+}
+
+// ---- malformed stream ------------------------------------------------------------------
+
+func malformed(c *hx.Ctx) {
+	r := hx.NewRng(c.Seed).Fork(0xBAD)
+	dir := filepath.Join(c.OutDir, "malformed")
+	os.MkdirAll(dir, 0o755)
+	defer os.RemoveAll(dir)
+	n := c.N(40, 400)
+	for i := 0; i < n; i++ {
+		var data []byte
+		var zipField, kind string
+		switch i % 8 {
+		case 0: // truncated ZIP of a valid document
+			d := genDoc(r, hx.Pick(r, []string{FDOCX, FXLSX, FPPTX, FODT, FEPUB}), "tokm")
+			b := d.Bytes()
+			data, zipField, kind = b[:r.Range(4, len(b)-1)], "err", "zip-truncated"
+		case 1: // ZIP without any marker
+			ms := []writers.Member{{Name: "readme.txt", Data: []byte("hello")}, {Name: "data/x.bin", Data: r.Bytes(8)}}
+			data, zipField, kind = writers.Zip(ms), membersField(ms), "zip-no-marker"
+		case 2:
+			data, zipField, kind = r.Bytes(r.Range(0, 64)), "-", "random"
+			if len(data) >= 4 && data[0] == 'P' && data[1] == 'K' {
+				data[0] = 'Q'
+			}
+		case 3:
+			data, zipField, kind = []byte{}, "-", "empty"
+		case 4: // PDF header only
+			data, zipField, kind = []byte("%PDF-1.4\nnot really\n"), "-", "pdf-header-only"
+		case 5: // PK header, garbage behind
+			data, zipField, kind = append([]byte("PK\x03\x04"), r.Bytes(r.Range(0, 80))...), "err", "pk-garbage"
+		case 6: // empty ZIP (end-of-central-directory record only)
+			data, zipField, kind = writers.Zip(nil), "-", "zip-empty"
+		case 7: // truncated PDF
+			d := pdfDoc(r, "tokm")
+			data, zipField, kind = d.Raw[:r.Range(5, len(d.Raw)-20)], "-", "pdf-truncated"
+		}
+		det := detectBytes(data)
+		if zipField == "err" && det != "err" {
+			// a truncation that archive/zip still reads: not a case for this stream
+			continue
+		}
+		c.Op("c20.detect "+hx.Hex(first512(data))+" "+zipField, det)
+		c.Count("malformed:" + kind + "->" + det)
+		for _, e := range append([]string{"", ".txt"}, allExts...) {
+			path := filepath.Join(dir, fmt.Sprintf("m%d%s", i, e))
+			os.WriteFile(path, data, 0o644)
+			_, err, pan := openText(path)
+			kase := map[string]interface{}{"kind": "malformed", "seed": c.Seed, "index": i, "name": "m" + e}
+			if c.Check("C20/panic-open", pan == "", kase, func() string { return "panic: " + pan }) {
+				verr := tabula.Open(path).VerifValidateFormat()
+				c.Op(fmt.Sprintf("c20.admission %s %s %s none", hx.HexS("m"+e), hx.Hex(first512(data)), zipField), "v="+okErr(verr)+" open="+okErr(err))
+			}
+			os.Remove(path)
+		}
+		c.Case(fmt.Sprintf("malformed:%s:%x", kind, data), false)
+	}
+}
+
+func Run(c *hx.Ctx) {
+	c.Rep.Rule = "names: every stem × extension × case variant + random names; magic: crafted prefixes, the 500-byte XML window, random prefixes; zipfmt: all single members, ordered pairs and random member lists over markers/prefixes/decoys/mimetype contents; documents: the harness's own writers for PDF, DOCX, ODT, XLSX, PPTX, HTML, EPUB 2/3 (+ HTML the sniffer cannot classify), each in canonical/reversed/markers-last/shuffled member orders and with decoy members of other formats in front/behind/between, each stored under all eight extensions, case variants, no and unsupported extensions and opened with tabula.Open(name).Text(); EPUB DRM matrix: rights file, unparsable metadata, all subsets of manifest items × algorithm, random subset×algorithm mixes, entry permutations and URI case/path forms; malformed: truncated/empty/markerless archives, random bytes. non-trivial = a document opened with its token in the text / an op with a definite format"
+	extOps(c)
+	magicOps(c)
+	zipfmtOps(c)
+	drmUnitOps(c)
+	n := c.N(96, 1200)
+	for i := 0; i < n; i++ {
+		RunDoc(c, i, false)
+	}
+	m := c.N(60, 600)
+	for i := 0; i < m; i++ {
+		RunDRM(c, i, false)
+	}
+	malformed(c)
+}
+
+// Replay re-runs one recorded failing case on the implementation.
+func Replay(c *hx.Ctx, kase map[string]interface{}) {
+	kind, _ := kase["kind"].(string)
+	idx := 0
+	if f, ok := kase["index"].(float64); ok {
+		idx = int(f)
+	}
+	switch kind {
+	case "doc":
+		RunDoc(c, idx, true)
+	case "drm":
+		RunDRM(c, idx, true)
+	case "ext":
+		extOps(c)
+	case "malformed":
+		malformed(c)
+	default:
+		drmUnitOps(c)
+	}
+}
+
+var _ = errors.Is
+var _ = epubdoc.ErrDRMProtected
